@@ -92,6 +92,82 @@ def _worker(args):
         return s
 
 
+def _init_worker():
+    # die with the parent: no orphan workers if the runner is killed
+    try:
+        import ctypes, signal
+        ctypes.CDLL("libc.so.6").prctl(1, signal.SIGKILL)
+    except Exception:
+        pass
+
+
+def _run_pool(modname, shards, nproc, tier):
+    """Run shards in worker processes. A worker that dies (kernel called exit(), abort, segfault) or
+    hangs is detected; the shards that were lost are re-run one per fresh process to identify the culprit."""
+    from concurrent.futures import ProcessPoolExecutor, wait, FIRST_COMPLETED
+    from concurrent.futures.process import BrokenProcessPool
+    ctx = mp.get_context("spawn")
+    timeout = float(os.environ.get("VT_SHARD_TIMEOUT", "900" if tier == "quick" else "5400"))
+    results, pending_desc = [], list(shards)
+    lost = []
+
+    def run_batch(descs, workers):
+        done_res, not_done = [], []
+        ex = ProcessPoolExecutor(workers, mp_context=ctx, initializer=_init_worker)
+        futs = {ex.submit(_worker, (modname, d)): d for d in descs}
+        pending = set(futs)
+        broken = False
+        try:
+            while pending:
+                done, pending = wait(pending, timeout=timeout, return_when=FIRST_COMPLETED)
+                if not done:            # no progress at all within the timeout: hang
+                    broken = True
+                    break
+                for f in done:
+                    try:
+                        done_res.append(f.result())
+                    except BrokenProcessPool:
+                        broken = True
+                        not_done.append(futs[f])
+                    except Exception as e:   # pickling problems etc.
+                        s_ = Shard()
+                        s_.notes.append("ENGINE-ERROR collecting shard %r: %r" % (futs[f], e))
+                        s_.counters["engine_errors"] = 1
+                        done_res.append(s_)
+                if broken:
+                    break
+        finally:
+            for f in pending:
+                not_done.append(futs[f])
+            if broken:
+                for p in list(getattr(ex, "_processes", {}).values()):
+                    try:
+                        p.kill()
+                    except Exception:
+                        pass
+            ex.shutdown(wait=not broken, cancel_futures=True)
+        return done_res, not_done, broken
+
+    res, not_done, broken = run_batch(pending_desc, nproc)
+    results += res
+    crashed = []
+    if broken and not_done:
+        # isolate: one fresh process per remaining shard (a few at a time)
+        import threading
+        lock = threading.Lock()
+
+        def solo(d):
+            r, nd, br = run_batch([d], 1)
+            with lock:
+                results.extend(r)
+                if nd:
+                    crashed.append(d)
+        from concurrent.futures import ThreadPoolExecutor
+        with ThreadPoolExecutor(max(1, min(nproc, 8))) as tp:
+            list(tp.map(solo, not_done))
+    return results, crashed
+
+
 def load_known():
     p = os.path.join(VERIF, "known_findings.json")
     if not os.path.exists(p):
@@ -110,15 +186,13 @@ def run_check(pid, tier, seed, nproc=None, only=None):
     nproc = nproc or int(os.environ.get("VT_NPROC", "16"))
     nproc = max(1, min(nproc, len(shards)))
     results = []
+    crashed = []
     serial = getattr(mod, "SERIAL", False) or nproc == 1
-    if serial:
+    if serial and not os.environ.get("VT_ISOLATE"):
         for d in shards:
             results.append(_worker((modname, d)))
     else:
-        ctx = mp.get_context("spawn")
-        with ctx.Pool(nproc, maxtasksperchild=getattr(mod, "MAXTASKS", None)) as pool:
-            for r in pool.imap_unordered(_worker, [(modname, d) for d in shards], chunksize=1):
-                results.append(r)
+        results, crashed = _run_pool(modname, shards, nproc, tier)
     merged = Shard()
     for r in results:
         merged.evaluations += r.evaluations
@@ -138,6 +212,10 @@ def run_check(pid, tier, seed, nproc=None, only=None):
                 merged.counters[k] = merged.counters.get(k, 0) + v
         for s in r.samples:
             merged.sample(s, limit=4)
+    for d in crashed:
+        merged.violation("worker-process-died-or-hung", {"shard": d},
+                         {"what": "the process running this shard exited, crashed or made no progress within the timeout "
+                                  "(a kernel called exit()/abort, a segfault, or an endless loop)"})
     extra = {}
     if hasattr(mod, "finalize"):
         extra = mod.finalize(merged, tier, seed) or {}
